@@ -544,6 +544,11 @@ def run(ctx) -> None:
             lc = [e for e in p.evs if e.kind == "cond" and re.fullmatch(r"(\w+)'? is (not )?None", e.text) and e.text.split("'")[0].split(" ")[0] in wlocals]
             has_w = bool(lc) and ((lc[0].text.endswith("is None") and not lc[0].text.endswith("is not None") and lc[0].extra.get("truth") is False) or (lc[0].text.endswith("is not None") and lc[0].extra.get("truth") is True))
         joined = any(f == "self.process_watcher.join" or any(f in (f"{n}.join", f"{n}'.join") for n in wlocals) for f in fs if f) or any(e.kind == "call" and any((e.raw or "").startswith(f"{n}.join(") for n in wlocals) for e in p.evs)
+        # ... or the watcher sits in a list of helper threads built before the child was stopped: the joined element is a snapshot of the field
+        from ..pse import snap_canon, snapshot_names
+
+        snaps = snapshot_names(p.evs)
+        joined = joined or any(snap_canon(f, snaps) == "snap<self.process_watcher>.join" for f in fs if f)
         if has_w and not joined:
             oks, msgs = False, "the process watcher thread is not joined although one exists on this path"
     ctx.check(oks and nfull > 0, RS, "AutoRestartTrick.stop", msgs, A.methods["stop"].loc)
